@@ -1,4 +1,5 @@
 import Poly.Proofs.PoW
+import Poly.Proofs.PoWBtc
 /-!
 # C27 — PoW light client keeps the heaviest valid chain
 
@@ -152,5 +153,75 @@ example :
       [[mk 1 0 11 5, mk 2 1 12 5], [mk 3 2 13 5], [mk 4 1 12 20], [mk 5 3 14 30], [mk 6 9 15 1], [mk 7 4 14 1]]
     s.cur = 14 ∧ s.main 12 = some 2 ∧ s.main 13 = some 3 ∧ s.main 14 = some 5 ∧
       (currentHeader s).map (·.td) = some 52 ∧ (s.index 6).isNone ∧ (s.index 7).isNone := by decide
+
+/-! ## Second instance: the Bitcoin light client (`header_sync/btc`) -/
+
+end Poly.Props.C27
+
+namespace Poly.Props.C27
+open Poly.Model.PoWBtc Poly.Proofs.PoWBtc
+
+variable {H R : Type} [DecidableEq H]
+
+/-- Bitcoin variant, for every trust root (at any height), every `CheckHeader` verdict function and every history of
+calls: every stored header other than the trust root has its parent stored, a height one above and a total work equal
+to its parent's plus its own. -/
+theorem btc_stored_inv (check : Hdr H R → Stored H R → Check) (g : Hdr H R) (gh : Nat) (calls : List (List (Hdr H R)))
+    (k : H) (e : Stored H R) (hk : (run check g gh calls).headers k = some e) (hne : k ≠ g.hash) :
+    e.hdr.hash = k ∧ ∃ pe, (run check g gh calls).headers e.hdr.prev = some pe ∧ e.height = pe.height + 1 ∧
+      e.total = pe.total + e.hdr.work := by
+  obtain ⟨b, inv, _⟩ := run_inv check g gh calls
+  exact ⟨inv.key k e hk, inv.par k e hk hne⟩
+
+/-- The height index is a gap-free, parent-linked chain of stored headers from the trust root to the best header; it
+names the best header at the best height and has no entry below the trust root or above the best height (the entries
+above a lower new tip are deleted). The best record is one of the stored headers. -/
+theorem btc_index_inv (check : Hdr H R → Stored H R → Check) (g : Hdr H R) (gh : Nat) (calls : List (List (Hdr H R))) :
+    let s := run check g gh calls
+    ∃ b, s.best = some b ∧ s.headers b.hdr.hash = some b ∧ s.index gh = some g.hash ∧ s.index b.height = some b.hdr.hash ∧
+      (∀ n, gh ≤ n → n ≤ b.height → ∃ e, s.index n = some e.hdr.hash ∧ s.headers e.hdr.hash = some e ∧ e.height = n) ∧
+      (∀ n k e, gh ≤ n → n + 1 ≤ b.height → s.index (n + 1) = some k → s.headers k = some e → s.index n = some e.hdr.prev) ∧
+      (∀ n, (n < gh ∨ b.height < n) → s.index n = none) := by
+  obtain ⟨b, inv, _⟩ := run_inv check g gh calls
+  exact ⟨b, inv.isBest, inv.bestStored, inv.idx_g, inv.idx_top, inv.idx_ok, inv.idx_link, inv.idx_out⟩
+
+/-- The best header's total work is maximal among the stored headers. -/
+theorem btc_best_heaviest (check : Hdr H R → Stored H R → Check) (g : Hdr H R) (gh : Nat) (calls : List (List (Hdr H R))) :
+    ∃ b, (run check g gh calls).best = some b ∧ ∀ k e, (run check g gh calls).headers k = some e → e.total ≤ b.total := by
+  obtain ⟨b, inv, hv⟩ := run_inv check g gh calls
+  exact ⟨b, inv.isBest, hv⟩
+
+/-- Re-submitting a known header changes nothing. -/
+theorem btc_resubmit_noop (check : Hdr H R → Stored H R → Check) (s : Store H R) (h : Hdr H R) (e : Stored H R)
+    (hk : s.headers h.hash = some e) :
+    syncHeader check s h = (s, .known) ∧ syncCall check s [h] = (s, [.known]) := by
+  have h1 : syncHeader check s h = (s, .known) := by simp [syncHeader, hk]
+  refine ⟨h1, ?_⟩
+  simp [syncCall, syncCall.go, h1, Outcome.failed]
+
+/-- `GetCommonAncestor` terminates (structural recursion on a fuel that the heights bound) and never fails on a
+consistent store: for a new header whose parent is stored it returns the new branch, top-down from the new header to
+the child of a header of the old best chain. -/
+theorem btc_common_ancestor_total {g : Hdr H R} {gh : Nat} {s : Store H R} {b : Stored H R} (inv : Inv0 g gh s b)
+    (h : Hdr H R) (p : Stored H R) (hnew : s.headers h.hash = none) (hpar : s.headers h.prev = some p) :
+    ∃ (L : List H) (fork : Stored H R), commonAncestor s h (p.height + 1) b = some L ∧
+      L.length + fork.height = p.height + 1 ∧ L[0]? = some h.hash ∧
+      s.index fork.height = some fork.hdr.hash ∧ gh ≤ fork.height ∧ fork.height ≤ b.height := by
+  obtain ⟨L, x', h1, h2, _, h4, _, _, h7, h8, h9⟩ := commonAncestor_spec inv h p hnew hpar
+  exact ⟨L, x', h1, h2, h4, h7, h8, h9⟩
+
+private def mkb (hash prev work : Nat) : Hdr Nat Unit := ⟨hash, prev, work, ()⟩
+
+/-- Trust root 0 at height 7; chain 1-2-3 (work 2 each); the shorter branch 4 (child of 1, work 9) becomes the best
+chain at the LOWER height 9 and the index entry at height 10 is deleted; then 5 (child of 3, work 20) wins back. -/
+example :
+    let s := run (fun _ _ => Check.ok) (mkb 0 99 1) 7 [[mkb 1 0 2, mkb 2 1 2], [mkb 3 2 2], [mkb 4 1 9]]
+    (s.best.map (·.height)) = some 9 ∧ s.index 9 = some 4 ∧ s.index 8 = some 1 ∧ s.index 10 = none ∧
+      (s.best.map (·.total)) = some 11 := by decide
+
+example :
+    let s := run (fun _ _ => Check.ok) (mkb 0 99 1) 7 [[mkb 1 0 2, mkb 2 1 2], [mkb 3 2 2], [mkb 4 1 9], [mkb 5 3 20], [mkb 6 77 1]]
+    (s.best.map (·.height)) = some 11 ∧ s.index 9 = some 2 ∧ s.index 10 = some 3 ∧ s.index 11 = some 5 ∧
+      (s.best.map (·.total)) = some 26 ∧ (s.headers 6).isNone := by decide
 
 end Poly.Props.C27
